@@ -2,6 +2,8 @@ import Mdsort.Proofs.WorldOwn
 import Mdsort.Proofs.PartiesWinner
 import Mdsort.Proofs.PartiesExactly
 import Mdsort.Proofs.PartiesWitness
+import Mdsort.Proofs.PartiesCopyWitness
+import Mdsort.Proofs.PartiesClient
 
 /-!
 # C17 - concurrent runs on the same maildirs neither lose nor duplicate messages
@@ -116,6 +118,103 @@ example : (∀ e ∈ (runSched m0 schedM).log, e.binds (ofString "/m/new", ofStr
   intro e he
   have := List.all_eq_true.1 m_norebind e he
   simpa using this
+
+/-! ## exactly once for EVERY action kind and for listing parties, under `H_iso` -/
+
+/-- Exactly once under `H_iso`, for ANY number of parties, each of which is
+* an mdsort run executing ANY action list of the sequential model on one message (`errOf (matchesExec ..)`:
+  move on one device, move across devices (copy + unlink), flag, flags, label, add-header, discard, exec with or
+  without a temporary file), or
+* an mdsort run that lists a directory and executes the action list its rules give for every name (`scanExec`), or
+* the external client (renames and unlinks),
+on EVERY complete schedule that respects `H_iso` (`Hiso`: no `unlinkat` and no `renameat` removes or replaces an
+entry another party created and has neither committed nor rolled back, and no party renames such an entry of
+its own as if it were a message; nothing is asked of exclusive creates, `readdir`, or any other call).
+`M` is any set of messages containing the ones the parties hold (`StartOKc`).  `origin g` is the initial file
+`g` descends from through the copy commits of the history (`originIn`).  Then at quiescence:
+1. every initial file `f0`, unless a version of it was removed outright (`Event.destroysRoot`: a successful
+   `discard` or delete by a party with no copy in flight, or another file renamed onto it), has EXACTLY ONE
+   entry holding a version of it;
+2. every entry descends from an initial file and holds either that very file with its initial content, or a
+   file created during the run whose content is a COMPLETE message `(messageWrite m).1` of some `m ∈ M` written
+   by a party (no placeholder, no empty or partial file remains in any directory);
+3. no file is bound to two entries. -/
+theorem C17_exactly_once_partial (M : Msg → Prop) (s0 : Shared) (h0 : Proofs.Parties.StartOKc M s0) (sched : List Nat)
+    (hiso : Hiso s0 sched = true) (hq : (runSched s0 sched).quiescent = true) :
+    (∀ p0 n0 f0, s0.fs.lookup p0 n0 = some f0 → (∀ e ∈ (runSched s0 sched).log, e.destroysRoot f0 = false) →
+      ∃ p n g, (runSched s0 sched).fs.lookup p n = some g ∧ (runSched s0 sched).origin g = f0 ∧
+        ∀ p' n' g', (runSched s0 sched).fs.lookup p' n' = some g' → (runSched s0 sched).origin g' = f0 → p' = p ∧ n' = n) ∧
+    (∀ p n g, (runSched s0 sched).fs.lookup p n = some g →
+      (∃ p0 n0, s0.fs.lookup p0 n0 = some ((runSched s0 sched).origin g)) ∧
+      ((g = (runSched s0 sched).origin g ∧ (runSched s0 sched).fs.file g = s0.fs.file g) ∨
+       (s0.fs.nextFid ≤ g ∧ ∃ m f, M m ∧ (runSched s0 sched).fs.file g = some f ∧ f.data = (messageWrite m).1))) ∧
+    (∀ p n p' n' g, (runSched s0 sched).fs.lookup p n = some g → (runSched s0 sched).fs.lookup p' n' = some g → p = p' ∧ n = n') :=
+  Proofs.Parties.exactly_once_copy s0 h0 sched hiso hq
+
+/-! ### non-vacuity: `label` against `move` on the same message, interleaved call by call -/
+
+open Proofs.Parties.W in
+/-- Round robin: B's `renameat` comes first, B wins; A's `unlinkat` of the original gets `ENOENT`, A removes its
+complete copy again and reports an error.  The message is in `/d/new`, once, with its initial content. -/
+example : Proofs.Parties.StartOKc MW c0 ∧ Hiso c0 schedRR = true ∧ (runSched c0 schedRR).quiescent = true ∧
+    (runSched c0 schedRR).parties.map (·.result) = [some true, some false] ∧
+    (runSched c0 schedRR).fs.entries = [(ofString "/d/new", ofString "7.2_1.h:2,", 0)] ∧
+    (runSched c0 schedRR).fs.content 0 = content :=
+  ⟨c_startOK, rr_facts⟩
+
+open Proofs.Parties.W in
+/-- A is ahead and commits before B's `renameat`: A wins, B gets `ENOENT`, removes its placeholder and reports
+an error.  The only entry is A's new name; it holds the complete labelled message and descends from file 0. -/
+example : Proofs.Parties.StartOKc MW c0 ∧ Hiso c0 schedAB = true ∧ (runSched c0 schedAB).quiescent = true ∧
+    (runSched c0 schedAB).parties.map (·.result) = [some false, some true] ∧
+    (runSched c0 schedAB).fs.entries = [(ofString "/m/new", nameA, 1)] ∧
+    (runSched c0 schedAB).fs.content 1 = labelledBytes ∧
+    (runSched c0 schedAB).origin 1 = 0 :=
+  ⟨c_startOK, ab_facts⟩
+
+/-! ## the external client needs no isolation hypothesis -/
+
+/-- The external client interleaved anywhere: `H_iso` is asked of the steps of the mdsort parties only
+(`HisoExcept cl`), nothing of the steps of the parties `cl`, provided these are clients whose operations
+mention no name of `N`, where `N` contains every name the mdsort processes of the run can generate
+(`GenNames N env`: `now.pid_count.host` + flags, for every counter value).  Then the conclusion of
+`C17_exactly_once_partial` holds. -/
+theorem C17_external_client (M : Msg → Prop) (N : Bytes → Prop) (cl : List Nat) (s0 : Shared)
+    (h0 : Proofs.Parties.StartOKc M s0)
+    (hgen : ∀ (i : Nat) (ps : PState), s0.parties[i]? = some ps → i ∉ cl →
+      (∃ env ml st, Proofs.Parties.GenNames N env ∧ ps.prog = errOf (matchesExec env ml st)) ∨
+      (∃ env md rule fuel e, Proofs.Parties.GenNames N env ∧ ps.prog = scanExec env md rule fuel e))
+    (hcl : ∀ (i : Nat) (ps : PState), i ∈ cl → s0.parties[i]? = some ps → ∃ ops, ps.prog = clientProg ops ∧ ∀ op ∈ ops, op.avoids N)
+    (sched : List Nat) (hiso : HisoExcept cl s0 sched = true) (hq : (runSched s0 sched).quiescent = true) :
+    Hiso s0 sched = true ∧
+    (∀ p0 n0 f0, s0.fs.lookup p0 n0 = some f0 → (∀ e ∈ (runSched s0 sched).log, e.destroysRoot f0 = false) →
+      ∃ p n g, (runSched s0 sched).fs.lookup p n = some g ∧ (runSched s0 sched).origin g = f0 ∧
+        ∀ p' n' g', (runSched s0 sched).fs.lookup p' n' = some g' → (runSched s0 sched).origin g' = f0 → p' = p ∧ n' = n) ∧
+    (∀ p n g, (runSched s0 sched).fs.lookup p n = some g →
+      (∃ p0 n0, s0.fs.lookup p0 n0 = some ((runSched s0 sched).origin g)) ∧
+      ((g = (runSched s0 sched).origin g ∧ (runSched s0 sched).fs.file g = s0.fs.file g) ∨
+       (s0.fs.nextFid ≤ g ∧ ∃ m f, M m ∧ (runSched s0 sched).fs.file g = some f ∧ f.data = (messageWrite m).1))) ∧
+    (∀ p n p' n' g, (runSched s0 sched).fs.lookup p n = some g → (runSched s0 sched).fs.lookup p' n' = some g → p = p' ∧ n = n') := by
+  have hH : Hiso s0 sched = true := by
+    refine Proofs.Parties.hiso_of_except (N := N) cl s0 h0.fresh ?_ hcl sched hiso
+    intro i ps hp
+    by_cases hi : i ∈ cl
+    · obtain ⟨ops, hprog, _⟩ := hcl i ps hi hp
+      rw [hprog]; exact Proofs.Parties.nq_clientProg ops
+    · rcases hgen i ps hp hi with ⟨env, ml, st, hN, hprog⟩ | ⟨env, md, rule, fuel, e, hN, hprog⟩
+      · rw [hprog]; exact Proofs.Parties.nq_errOf _ (Proofs.Parties.nq_matchesExec env hN ml st)
+      · rw [hprog]; exact Proofs.Parties.nq_scanExec env hN md rule fuel e
+  exact ⟨hH, Proofs.Parties.exactly_once_copy s0 h0 sched hH hq⟩
+
+open Proofs.Parties.W in
+/-- Non-vacuity: the two movers racing for `a` and the client renaming `b` (party 2), round robin; isolation is
+asked of the movers only, the client's names `b`, `b:2,S` are outside the generated names `7.<pid>_<count>.h...`. -/
+example : Proofs.Parties.StartOKc MW m0 ∧ HisoExcept [2] m0 schedM = true ∧ (runSched m0 schedM).quiescent = true ∧
+    (∀ (i : Nat) (ps : PState), m0.parties[i]? = some ps → i ∉ [2] →
+      (∃ env ml st, Proofs.Parties.GenNames NW env ∧ ps.prog = errOf (matchesExec env ml st)) ∨
+      (∃ env md rule fuel e, Proofs.Parties.GenNames NW env ∧ ps.prog = scanExec env md rule fuel e)) ∧
+    (∀ (i : Nat) (ps : PState), i ∈ [2] → m0.parties[i]? = some ps → ∃ ops, ps.prog = clientProg ops ∧ ∀ op ∈ ops, op.avoids NW) :=
+  ⟨m_startOKc, m_isoExcept, m_quiescent, m_gen, m_client⟩
 
 /-! ## the full statement, without `H_iso`, is false (F14) -/
 
